@@ -666,8 +666,23 @@ func ruleR10_1_3(w *World, r *Report) {
 			}
 			// the binding overwrites whatever the variable held: the literal must have been found not false first, in
 			// the same iteration (a test made in an earlier loop sees only the facts, not the assumptions bound since)
+			// the binding call may sit in an earlier block than the flag store: the test must dominate it too
+			testAt := b
+			for _, ci := range callsIn(fn) {
+				c, isC := ci.(*ssa.Call)
+				if !isC {
+					continue
+				}
+				for _, callee := range w.Callees[c] {
+					for _, a := range c.Call.Args {
+						if a == lit && eff.WritesAny(callee, "solver.Solver.model") && c.Block().Dominates(testAt) {
+							testAt = c.Block()
+						}
+					}
+				}
+			}
 			tested := false
-			for _, ec := range dominatingConds(b) {
+			for _, ec := range dominatingConds(testAt) {
 				bo, ok := ec.Cond.(*ssa.BinOp)
 				if !ok || (bo.Op != token.EQL && bo.Op != token.NEQ) {
 					continue
